@@ -239,7 +239,15 @@ func TestC09(t *testing.T) {
 				nodes, vals = parenSites(tree, nil)
 			}
 			v := base
-			v.Extra, v.ValPar, v.LstPar = map[int]int{}, map[int]int{}, map[int]int{}
+			v.Extra, v.ValPar, v.LstPar, v.ArgPar = map[int]int{}, map[int]int{}, map[int]int{}, map[int]int{}
+			argPar := false
+			tree.Walk(func(id int, n *gen.Node) {
+				// the number of ~ / ^ is the operator's second operand: (2) for 2
+				if (n.K == gen.NBoost || n.K == gen.NFuzzy) && n.Arg && rapid.IntRange(0, 2).Draw(rt, "argpar") == 0 {
+					v.ArgPar[id] = rapid.IntRange(1, 2).Draw(rt, "argpairs")
+					argPar = true
+				}
+			})
 			tree.Walk(func(id int, n *gen.Node) {
 				if n.K == gen.NList && rapid.IntRange(0, 2).Draw(rt, "lstpar") == 0 {
 					bits := len(n.Vals)
@@ -263,7 +271,7 @@ func TestC09(t *testing.T) {
 					nonRoot = true
 				}
 			}
-			if len(v.LstPar) > 0 {
+			if len(v.LstPar) > 0 || argPar {
 				nonRoot = true
 			}
 			ntok := 0
